@@ -18,13 +18,32 @@
 (* per step, so the reachable states are exactly the identifiers up to     *)
 (* MaxLen over IdChars); `out` holds what the statement promises for it:   *)
 (* the rendered file name (or "rejected") for every template of Templates, *)
-(* and whether the camel/snake round trip is promised.                     *)
+(* whether the camel/snake round trip is promised, and the snake / camel   *)
+(* form where the conventional conversion is defined.                      *)
+(*                                                                         *)
+(* Via = "direct": the template is handed to FileNamingFormat as it is.    *)
+(* Via = "config": the template goes the way of the generators' --style    *)
+(* flag, through config.NewConfig: no template at all (the empty one)      *)
+(* stands for the default "godesigner", every other template is the        *)
+(* template - white space included, so a prefix/suffix of blanks is        *)
+(* rendered and a blank template lacks both words and is rejected.         *)
+(*                                                                         *)
+(* Further tokens: white space "sp" " ", "tb" TAB, "nl" LF, "nb" U+00A0,   *)
+(* "is" U+3000; letters with a case mapping of another UTF-8 length, used  *)
+(* by the conversion families only: "Ax" U+023A / "ax" U+2C65, "Tx" U+023E *)
+(* / "tx" U+2C66 (lower case one byte longer), "Ee" U+00C9 / "ee" U+00E9   *)
+(* (same length), "Id" U+0130 -> "i", "Kv" U+212A -> "k" (shorter);        *)
+(* "xff", "xc3" = the single bytes 0xFF / 0xC3, which are no UTF-8: they   *)
+(* are characters without case that no rule touches (an implementation may *)
+(* keep the byte or put U+FFFD in its place - the driver compares modulo   *)
+(* that replacement).                                                      *)
 (***************************************************************************)
 EXTENDS Integers, Sequences, FiniteSets, SequencesExt, FiniteSetsExt, TLC
 
 CONSTANTS IdChars,     \* characters offered to identifiers
           MaxLen,      \* longest identifier
-          Templates    \* sequence of templates (each a sequence of characters)
+          Templates,   \* sequence of templates (each a sequence of characters)
+          Via          \* "direct" | "config": how a template reaches FileNamingFormat
 
 VARIABLES id, out
 vars == <<id, out>>
@@ -42,6 +61,25 @@ LowSeq(s) == [i \in 1..Len(s) |-> Low(s[i])]
 TitleSeq(s) == IF s = <<>> THEN <<>> ELSE <<Up(s[1])>> \o LowSeq(Tail(s))
 
 IsDigit(c) == c \in {"0", "1", "2", "3", "4", "5", "6", "7", "8", "9"}
+
+WhiteSpace == {"sp", "tb", "nl", "nb", "is"}
+InvalidBytes == {"xff", "xc3"}
+HasSpace(s) == \E i \in 1..Len(s) : s[i] \in WhiteSpace
+HasInvalid(s) == \E i \in 1..Len(s) : s[i] \in InvalidBytes
+
+\* Unicode letters beyond the ASCII table, for the camel/snake conversions (which cut before every
+\* upper-case *letter*, not only before A-Z): (lower, upper) pairs, and upper-case letters whose lower-case
+\* form is an ASCII letter.  The UTF-8 length of the two forms differs except for ee/Ee.
+ULetters == {<<"ax", "Ax">>, <<"tx", "Tx">>, <<"ee", "Ee">>}
+UToAscii == {<<"i", "Id">>, <<"k", "Kv">>}
+IsUpperU(c) == IsUpper(c) \/ \E p \in ULetters \cup UToAscii : p[2] = c
+IsLowerU(c) == IsLower(c) \/ \E p \in ULetters : p[1] = c
+LowU(c) == IF \E p \in ULetters \cup UToAscii : p[2] = c
+             THEN (CHOOSE p \in ULetters \cup UToAscii : p[2] = c)[1] ELSE Low(c)
+UpU(c)  == IF \E p \in ULetters : p[1] = c THEN (CHOOSE p \in ULetters : p[1] = c)[2] ELSE Up(c)
+LowUSeq(s) == [i \in 1..Len(s) |-> LowU(s[i])]
+\* the lower-case form of the identifier is longer in bytes than the identifier (coverage report)
+Grows(s) == \E i \in 1..Len(s) : s[i] \in {"Ax", "Tx"}
 
 (* ------------------------------------------------------------ identifier -> words *)
 
@@ -103,6 +141,17 @@ Render(t, s) ==
               cs == [i \in 1..Len(ws) |-> Cased(ws[i], IF i = 1 THEN p.gs ELSE p.ds)]
           IN [e |-> FALSE, s |-> p.prefix \o JoinWith(cs, p.through) \o p.suffix]
 
+(* ------------------------------------------------------------ through the generators' configuration *)
+
+DefaultTemplate == <<"g", "o", "d", "e", "s", "i", "g", "n", "e", "r">>
+\* the template FileNamingFormat is given: config.NewConfig turns "no template" into the default and leaves
+\* every other template alone
+Effective(t) == IF Via = "config" /\ t = <<>> THEN DefaultTemplate ELSE t
+\* (TLC passes operator arguments by name: the effective template is bound to its value once per pair)
+Promise(t, s) == CHOOSE r \in {Render(e, s) : e \in {Effective(t)}} : TRUE
+
+IsBlank(t) == t # <<>> /\ \A i \in 1..Len(t) : t[i] \in WhiteSpace
+
 (* ------------------------------------------------------------ camel / snake *)
 
 \* identifiers for which the round trip is promised: lower-case ASCII words separated by
@@ -124,11 +173,32 @@ Camel(s) == LET ps == PartsBy(s, LAMBDA c : c = "_", FALSE)
 Snake(s) == LET ps == PartsBy(s, IsUpper, TRUE)
             IN JoinWith([i \in 1..Len(ps) |-> LowSeq(ps[i])], <<"_">>)
 
+\* the same conventional conversions over all letters of the model (ASCII and ULetters/UToAscii); on ASCII
+\* identifiers they are Camel / Snake
+CamelU(s) == LET ps == PartsBy(s, LAMBDA c : c = "_", FALSE)
+             IN FlattenSeq([i \in 1..Len(ps) |-> <<UpU(ps[i][1])>> \o Tail(ps[i])])
+SnakeU(s) == LET ps == PartsBy(s, IsUpperU, TRUE)
+             IN JoinWith([i \in 1..Len(ps) |-> LowUSeq(ps[i])], <<"_">>)
+
+\* where the conventional conversion says what comes out ("these conversions never fail ... on any string":
+\* no letter is lost, nothing is cut off).  Snake: every string without white space (a blank string has no
+\* words; what a word is next to a blank is not fixed).  Camel: additionally every underscore-separated part
+\* begins with a letter and consists of letters and digits (the title casing of a part that begins with a
+\* digit or contains another character is not fixed by the statement).
+PlainPart(w) == /\ IsUpperU(w[1]) \/ IsLowerU(w[1])
+                /\ \A k \in 1..Len(w) : IsUpperU(w[k]) \/ IsLowerU(w[k]) \/ IsDigit(w[k])
+SnakePromise(s) == IF HasSpace(s) THEN [d |-> FALSE] ELSE [d |-> TRUE, s |-> SnakeU(s)]
+CamelPromise(s) == LET ps == PartsBy(s, LAMBDA c : c = "_", FALSE)
+                   IN IF HasSpace(s) \/ \E n \in 1..Len(ps) : ~PlainPart(ps[n])
+                        THEN [d |-> FALSE] ELSE [d |-> TRUE, s |-> CamelU(s)]
+
 (* ------------------------------------------------------------ behaviour *)
 
 Observe(s) == [id |-> s,
-               names |-> [k \in 1..Len(Templates) |-> Render(Templates[k], s)],
-               rt |-> IsSnakeId(s)]
+               names |-> [k \in 1..Len(Templates) |-> Promise(Templates[k], s)],
+               rt |-> IsSnakeId(s),
+               sn |-> SnakePromise(s),
+               cm |-> CamelPromise(s)]
 
 Init == id = <<>> /\ out = Observe(<<>>)
 
@@ -157,7 +227,7 @@ WordsPartition ==
 \* rendering only changes casing and inserts the template's texts
 RenderShape ==
   \A k \in 1..Len(Templates) :
-    LET p == Parse(Templates[k])
+    LET p == Parse(Effective(Templates[k]))
         r == out.names[k]
         ws == Words(id)
     IN IF ~p.valid THEN r.e
@@ -180,6 +250,27 @@ ParseRebuilds ==
 
 \* the camel/snake promise is satisfiable by the conventional conversions
 RoundTripModel == IsSnakeId(id) => Snake(Camel(id)) = id
+
+\* the conversions over all letters agree with the ASCII ones on the round-trip domain, lose no character
+\* (the snake form is the identifier, lower-cased, plus one underscore per cut) and keep the round trip
+ConversionShape ==
+  /\ IsSnakeId(id) => CamelU(id) = Camel(id) /\ SnakeU(CamelU(id)) = id
+  /\ LET sn == SnakePromise(id)
+     IN sn.d => /\ SelectSeq(sn.s, LAMBDA c : c # "_") = LowUSeq(NoUnderscore(id))
+                /\ Len(sn.s) = Len(id) + Cardinality({i \in 2..Len(id) : IsUpperU(id[i])})
+  /\ LET cm == CamelPromise(id)
+     IN cm.d => /\ Len(cm.s) = Len(NoUnderscore(id))
+                /\ LowUSeq(cm.s) = LowUSeq(NoUnderscore(id))
+
+\* through the configuration a template is the template: only "no template" is replaced (by the default), so
+\* white space around the two words is rendered and a blank template is rejected
+ConfigPassThrough ==
+  Via = "config" =>
+    \A k \in 1..Len(Templates) :
+      LET t == Templates[k]
+      IN /\ t # <<>> => out.names[k] = Render(t, id)
+         /\ t = <<>> => out.names[k] = Render(DefaultTemplate, id) /\ ~out.names[k].e
+         /\ IsBlank(t) => out.names[k].e
 
 \* the result is a function of (template, identifier): re-evaluating gives the same value
 Deterministic == out = Observe(id)
